@@ -11,7 +11,6 @@ NA = {
  "C03": "the classic compiler is CLVM data interpreted at compile time; its meaning lies outside any analysis of the Rust program (DESIGN 4)",
  "C04": "soundness of CLVM rewrite rules for any args is an algebraic identity over evaluator semantics, not a shape-of-code fact (DESIGN 4)",
  "C06": "agreement of two evaluators on every program is value-level; its only structural part (opcode constants of the step machine) is decided under C20 (DESIGN 4)",
- "C07": "lossless conversion / hash equality over all byte strings depends on big-integer sign/length arithmetic on values (DESIGN 4)",
  "C09": "printer/reader inverse over all byte strings is about the values of two character-class automata (DESIGN 4)",
  "C12": "faithfulness of each trace row is a per-step semantic statement about executions (DESIGN 4)",
  "C15": "source locations are column arithmetic per input byte; numeric, per input (DESIGN 4)",
@@ -21,12 +20,28 @@ NA = {
 PENDING = "static rule designed in DESIGN section 3; check not yet registered (under construction)"
 
 CHECKS = {
+ "C07": {
+  "text": "PARTIAL. Decides three structural clauses that are necessary for the hash/equality part of the property, on the "
+          "current sources: (frame) the three tree-hash implementations in the crate (rich form, CLVM form, symbol/relabel "
+          "table builder) absorb exactly [0x02, H(first), H(rest)] for a pair and [0x01, bytes] for an atom, recovered from "
+          "MIR as the dominance-ordered sequence of hasher feeds; (zero) hashing and CLVM conversion of the rich form guard "
+          "the empty-atom treatment of integer zero by the same test; (hash) <SExp as Hash> feeds the hasher only child "
+          "nodes and atom byte vectors and turns integers into bytes with the same function equal_to uses, and == is "
+          "equal_to. Each holds for every input at once; a test samples atoms.",
+  "note": "NOT decided (value-level): losslessness of convert_from/convert_to for every byte string, hash equality with "
+          "the consensus clvm tree hash implementation outside the crate, the 'exactly when' direction of the equality clause. "
+          "Breaking any decided clause breaks the property; satisfying them does not establish it.",
+  "technique": "MIR event-sequence extraction (dominance-ordered hasher feeds) + sibling comparison + type-driven feed inventory",
+  "design": "3.10",
+ },
  "C08": {
   "text": "Static comparison of the writer's length-class table, recovered from MIR as a guard chain plus symbolic byte "
           "expressions of the atom size (shifts/masks/ors only, hence exactly checkable on single-bit sizes and boundaries), with "
           "the format's closed form; every stream read of the reader is length-checked before use with the mismatch edge "
           "returning only errors; reader limit = writer's last threshold; literal classes mirror; pairs written marker-first-"
-          "rest. Decides these structural clauses for every atom length at once (tests only sample lengths).",
+          "rest; every chunk the serialising iterator yields is the checked table's result, a replayed payload of the "
+          "allocator's own atom bytes, or the constant pair marker (no second, unchecked atom encoder). Decides these structural "
+          "clauses for every atom length at once (tests only sample lengths).",
   "note": "Not decided: byte-identity with clvmr::serde for all atoms and acceptance-set equality with the consensus "
           "deserialiser. A table-driven rewrite of the writer is reported as anchor-lost (accepted cost, stated in DESIGN).",
   "technique": "MIR symbolic expression recovery + closed-form comparison + dominance rules",
@@ -69,7 +84,8 @@ CHECKS = {
           "each discharged on every path by a forward length-domain abstract interpretation with helper summaries, an "
           "infallible-producer list, a dominating Some/Ok test, a constant divisor or a reviewed table line; plus: every "
           "compile-time CLVM evaluation started by the compiler is step-bounded and the evaluator tests the bound before each "
-          "step. Decides this structural clause, not termination or the located-error clause. Found F3-F5, F9-F14 (fixed).",
+          "step. Reviewed table lines may carry machine-checked preconditions (e.g. the classified token reaches the parser "
+          "unaltered). Decides this structural clause, not termination or the located-error clause. Found F3-F5, F9-F14 (fixed).",
   "note": "Not decided (counted in evidence): variable-index accesses, debug-only overflow checks, RefCell double borrows, "
           "allocation failure, stack depth, panics inside dependencies, general termination. tables/panic_sites.json holds the "
           "reviewed sites (classes environment / constant / invariant / caller-guarded / baseline-unproven); wrong reviews are "
@@ -85,7 +101,8 @@ CHECKS = {
           "the counter and the int-mode thread-local; RAII typestate of the int-mode guard; no ambient inputs reachable "
           "from compile entry points. A finite set of runs cannot observe these channels (seeds agree, counters start at 0).",
   "note": "Trusts rustc MIR/Freeze, the order-taint classifier (self-tested both ways) and tables/hash_order.json (8 reviewed "
-          "lines incl. 2 baseline-unproven for the de-inlining hill climb). Does not decide that emitted code contains no "
+          "lines; the de-inlining hill climb's hash order was a genuine defect, F16, fixed). One known finding (F17: generated names "
+          "in the symbol table). Does not decide that emitted code contains no "
           "generated names, nor ordering by generated *names* (only by digests).",
   "technique": "MIR order-taint analysis (type-driven sources, loop/closure effect classification) + typestate + who-may-call + reviewed table",
   "design": "3.1",
@@ -94,9 +111,10 @@ CHECKS = {
   "text": "Pairing rule read => record decided on every path of the preprocessor's MIR (each read_new_file call is "
           "self-recording or dominated in every caller by a recorder on the same include description; recorder skip "
           "edges classified), who-may-read, first-match shape of the resolver loop, and the listing's only filter "
-          "being the `*` pseudo-file predicate. Found F2 (embed-file unlisted), repaired by a fix: commit.",
-  "note": "Scope: the modern preprocessor (all dialect sigils and the listing itself). The classic `_read` operator's "
-          "resolution is not decided. Trusts rustc MIR construction; value flow is local-level.",
+          "being the `*` pseudo-file predicate, every success return of the listing passing through the frontend, and the "
+          "classic reader's search list being built in search-path order. Found F2 (embed-file unlisted), repaired by a fix: commit.",
+  "note": "Scope: the modern preprocessor (all dialect sigils and the listing itself) plus the order of the classic search list. "
+          "The classic `_read` operator's own resolution loop is CLVM data (stage_2 reader is Rust: first-match walk not decided). Trusts rustc MIR construction; value flow is local-level.",
   "technique": "MIR pairing/dominance rules + value flow + who-may-call",
   "design": "3.4",
  },
